@@ -53,7 +53,8 @@ Record st := mkSt {
   s_root : val;                 (* the destination *)
   s_vp : path; s_vt : ty;       (* VP and the type it points at *)
   s_stk : list (path * ty);     (* _Stack *)
-  s_sr : option nat             (* sr: result of struct_field *)
+  s_sr : option nat;            (* sr: result of struct_field *)
+  s_mis : bool                  (* _VAR_et: a type mismatch was recorded; the call returns it at the epilogue *)
 }.
 
 Inductive outcome := Next (s : st) | Jump (pc : nat) (s : st) | Fail | Unknown.
@@ -65,9 +66,9 @@ Section Exec.
   Variable o : opts.
 
   Definition cur (s : st) : val := getp (s_root s) (s_vp s).
-  Definition wr (s : st) (x : val) : st := mkSt (s_in s) (setp (s_root s) (s_vp s) x) (s_vp s) (s_vt s) (s_stk s) (s_sr s).
-  Definition adv (s : st) (r : bytes) : st := mkSt r (s_root s) (s_vp s) (s_vt s) (s_stk s) (s_sr s).
-  Definition mv (s : st) (p : path) (t : ty) : st := mkSt (s_in s) (s_root s) p t (s_stk s) (s_sr s).
+  Definition wr (s : st) (x : val) : st := mkSt (s_in s) (setp (s_root s) (s_vp s) x) (s_vp s) (s_vt s) (s_stk s) (s_sr s) (s_mis s).
+  Definition adv (s : st) (r : bytes) : st := mkSt r (s_root s) (s_vp s) (s_vt s) (s_stk s) (s_sr s) (s_mis s).
+  Definition mv (s : st) (p : path) (t : ty) : st := mkSt (s_in s) (s_root s) p t (s_stk s) (s_sr s) (s_mis s).
 
   (* a scalar parsed by vsigned / vunsigned / vnumber at IC; the token must be a JSON number *)
   Definition num_op (s : st) (f : bytes -> res val) : outcome :=
@@ -119,7 +120,7 @@ Section Exec.
     | OP_is_null => if starts lit_null inp then Jump (i_vi i) (adv s (skipn 4 inp)) else Next s
     | OP_is_null_quote =>
       if starts (lit_null ++ [34]) inp then Jump (i_vi i) (adv s (skipn 5 inp)) else Next s
-    | OP_dismatch_err => Next s
+    | OP_dismatch_err => Next (mkSt inp (s_root s) (s_vp s) (s_vt s) (s_stk s) (s_sr s) true)
     | OP_go_skip => Fail                                   (* mismatch recorded: the call ends with an error *)
     | OP_nil_1 | OP_nil_2 | OP_nil_3 => Next (wr s VNil)
     | OP_empty_bytes => Next (wr s (VList [] []))
@@ -180,7 +181,7 @@ Section Exec.
       | _ => Fail
       end
     | OP_save =>
-      let s' := mkSt inp (s_root s) (s_vp s) (s_vt s) ((s_vp s, s_vt s) :: s_stk s) (s_sr s) in
+      let s' := mkSt inp (s_root s) (s_vp s) (s_vt s) ((s_vp s, s_vt s) :: s_stk s) (s_sr s) (s_mis s) in
       match s_vt s with
       | TArr _ e => Next (mv s' (s_vp s ++ [PElem 0]) e)        (* the array and its first element share the address *)
       | _ => Next s'
@@ -188,12 +189,12 @@ Section Exec.
     | OP_load => match s_stk s with (p, t) :: _ => Next (mv s p t) | [] => Fail end
     | OP_drop =>
       match s_stk s with
-      | (p, t) :: r => Next (mkSt inp (s_root s) p t r (s_sr s))
+      | (p, t) :: r => Next (mkSt inp (s_root s) p t r (s_sr s) (s_mis s))
       | [] => Fail
       end
     | OP_drop_2 =>
       match s_stk s with
-      | _ :: (p, t) :: r => Next (mkSt inp (s_root s) p t r (s_sr s))
+      | _ :: (p, t) :: r => Next (mkSt inp (s_root s) p t r (s_sr s) (s_mis s))
       | _ => Fail
       end
     | OP_map_init =>
@@ -234,6 +235,8 @@ Section Exec.
       | _ => Fail
       end
     | OP_array_skip =>
+      if o_validate o && negb (match pvalue (parse_fuel inp) true (91 :: inp) with Some (j, _) => strict_jv j | None => true end)
+      then Unknown else
       (* native skip_array: the rest of the array is read in the state "first element or ]": a `]` right away
          is accepted (also after a comma) *)
       match pvalue (parse_fuel inp) (o_validate o) (91 :: inp) with
@@ -245,7 +248,7 @@ Section Exec.
       match s_stk s, rev (s_vp s) with
       | (ap, TArr n e) :: _, PElem k :: _ =>
         match getp (s_root s) ap with
-        | VList vis hid => Next (mkSt inp (setp (s_root s) ap (VList (pad_to n (zero e) (firstn k vis)) hid)) (s_vp s) (s_vt s) (s_stk s) (s_sr s))
+        | VList vis hid => Next (mkSt inp (setp (s_root s) ap (VList (pad_to n (zero e) (firstn k vis)) hid)) (s_vp s) (s_vt s) (s_stk s) (s_sr s) (s_mis s))
         | _ => Fail
         end
       | _, _ => Fail
@@ -253,6 +256,7 @@ Section Exec.
     | OP_object_next | OP_skip_emtpy =>
       match pvalue (parse_fuel inp) (o_validate o) inp with
       | Some (j, r) =>
+        if o_validate o && negb (strict_jv j) then Unknown else   (* escape checks of skipped text depend on the position *)
         match i_op i, o_disallow_unknown o, j with
         | OP_skip_emtpy, true, JObj _ (_ :: _) => Fail
         | OP_skip_emtpy, _, _ => Jump (i_vi i) (adv s r)
@@ -264,8 +268,8 @@ Section Exec.
       match str_at s with
       | Some (u, r) =>
         match sonic_lookup h (map fst (i_fm i)) u with
-        | Some k => Next (mkSt r (s_root s) (s_vp s) (s_vt s) (s_stk s) (Some k))
-        | None => if o_disallow_unknown o then Fail else Next (mkSt r (s_root s) (s_vp s) (s_vt s) (s_stk s) None)
+        | Some k => Next (mkSt r (s_root s) (s_vp s) (s_vt s) (s_stk s) (Some k) (s_mis s))
+        | None => if o_disallow_unknown o then Fail else Next (mkSt r (s_root s) (s_vp s) (s_vt s) (s_stk s) None (s_mis s))
         end
       | None => Fail
       end
@@ -278,6 +282,7 @@ Section Exec.
       (* skip_one, then the raw text goes to UnmarshalJSON; OP_unmarshal allocates the pointer first *)
       match pvalue (parse_fuel inp) (o_validate o) inp with
       | Some (j, r) =>
+        if o_validate o && negb (strict_jv j) then Unknown else
         let leaf := match i_t i with TPtr e => e | t => t end in
         let raw := raw_of j in
         if (match leaf with TUnm => bytes_eqb raw lit_qERRq | _ => false end) then Fail else
@@ -302,23 +307,25 @@ Section Exec.
     | OP_dyn | OP_map_key_f32 | OP_map_key_f64 | OP_unsupported => Unknown
     end.
 
-  (* run a program from pc with fuel; `run` decodes a nested type with its own program (decodeTypedPointer) *)
-  Fixpoint exec (fuel : nat) (p : prog) (pc : nat) (s : st) {struct fuel} : res st :=
+  (* run a program with fuel; `code` is the program from the current pc on (a jump re-slices the program);
+     `run` decodes a nested type with its own program (decodeTypedPointer) *)
+  Fixpoint exec (fuel : nat) (p : prog) (code : prog) (s : st) {struct fuel} : res st :=
     match fuel with
     | O => Unk
     | S f =>
-      match nth_error p pc with
-      | None => Ok s                                        (* the epilogue: pc = len(p) *)
-      | Some i =>
+      match code with
+      | [] => Ok s                                          (* the epilogue: pc = len(p) *)
+      | i :: rest =>
         let run := fun (t : ty) (s0 : st) =>
-          match exec f (compile t) 0 (mkSt (s_in s0) (s_root s0) (s_vp s0) t (s_stk s0) None) with
-          | Ok s1 => Ok (mkSt (s_in s1) (s_root s1) (s_vp s0) (s_vt s0) (s_stk s0) (s_sr s0))
+          let q := compile t in
+          match exec f q q (mkSt (s_in s0) (s_root s0) (s_vp s0) t (s_stk s0) None false) with
+          | Ok s1 => Ok (mkSt (s_in s1) (s_root s1) (s_vp s0) (s_vt s0) (s_stk s0) (s_sr s0) (s_mis s0 || s_mis s1))
           | Err => Err
           | Unk => Unk
           end in
         match exec1 run i s with
-        | Next s' => exec f p (S pc) s'
-        | Jump pc' s' => exec f p pc' s'
+        | Next s' => exec f p rest s'
+        | Jump pc' s' => exec f p (skipn pc' p) s'
         | Fail => Err
         | Unknown => Unk
         end
@@ -331,8 +338,8 @@ Section Exec.
   Definition il_unmarshal (t : ty) (s : bytes) (v : val) : res val :=
     let s' := if o_validate o then (if utf8_valid s then s else utf8_correct s) else s in
     let p := compile t in
-    match exec (exec_fuel p s') p 0 (mkSt s' v [] t [] None) with
-    | Ok s1 => if all_ws (s_in s1) then Ok (s_root s1) else Err
+    match exec (exec_fuel p s') p p (mkSt s' v [] t [] None false) with
+    | Ok s1 => if s_mis s1 then Err else if all_ws (s_in s1) then Ok (s_root s1) else Err
     | Err => Err
     | Unk => Unk
     end.
